@@ -110,4 +110,18 @@ SPECS = {
         'assumptions': _EDIT_ASSUME + ['under fault P1 only validity and structural equality are asserted (formatting may legitimately be lost by the retry-at-parent path)'],
         'real_vs_stub': 'all pfst code ran real; harness-side wrapper: Reconcile.put_node (class attribute) for fault P1; stubs: none',
     },
+    'C15': {
+        'engine': 'walksim', 'mod': 'sim.engines', 'quick': 16000, 'thorough': 300000, 'level': 'exploration',
+        'timeout_is_violation': True,
+        'rule': 'one evaluation = one seeded schedule: a tree, walk()/search() parameters (all, on, back, recurse, scope, self_, '
+                'start node) and at every yield a scheduler action drawn from {nothing, replace/remove the yielded node, '
+                'ancestor k, previous/next sibling, insert before a sibling, send(False), send(True)} performed with real '
+                'single-element non-raw edits; monitors at every yield: no raise, yielded node alive and really linked up to '
+                'the walked root, AST node not yielded before on entry, yields <= 4*(nodes ever created)+16, no descendant '
+                'after send(False); in order-mode runs (actions restricted to the current node) the next yield is compared '
+                'with the quiescent walk; final tree checked against ast.parse; non-trivial = at least one action fired; '
+                'distinct = digest of (yield, node type, action, outcome) log',
+        'assumptions': _EDIT_ASSUME + ['"same node" = AST node identity (wrappers are documented to be reused)', 'the order reference is pfst\'s own quiescent walk() (C14 decides the order itself)'],
+        'real_vs_stub': 'all pfst code ran real; the scheduler acts only at generator yields; stubs: none',
+    },
 }
